@@ -222,9 +222,13 @@ pub fn exercise<T: Full>(name: &str, rng: &mut StdRng, sink: &mut crate::gen::Si
             }
         }
         if want == "mut" || want == "all" {
-            for m in crate::cbgen::typed_mutations(rng, &enc) {
+            // every mutant is monitored here (no panic, position bound, allocation bound); violating events and a sample go to TLC
+            for (i, m) in crate::cbgen::typed_mutations(rng, &enc).into_iter().enumerate() {
                 let dec = crate::ops::guarded(|| decode_report::<T>(&m));
-                sink.put(json!({"fam":"typed","name":"mut","ty":name,"buf":bytes(&m),"obs":dec}));
+                sink.monitored += 1;
+                let bad = dec["p"] != "run" || dec["pos"].as_u64().map(|p| p as usize > m.len()).unwrap_or(true)
+                    || dec["alloc"].as_u64().map(|a| a as usize > 256 * m.len() + 16384).unwrap_or(true);
+                if bad || i < 12 || i % 37 == 0 { sink.put(json!({"fam":"typed","name":"mut","ty":name,"buf":bytes(&m),"obs":dec})); }
             }
         }
     }
